@@ -2,6 +2,7 @@
 C02 driver (stage 1): encoder scripts, see `Drv/EncScript.lean`.
 -/
 import HickoryVerif.Drv.EncScript
+import HickoryVerif.Drv.MsgEmit
 
 namespace HickoryVerif.Drv.C02
 open HickoryVerif HickoryVerif.Drv
@@ -13,6 +14,10 @@ def step (s : State) (toks : List String) : State × String :=
   match toks with
   | "enc" :: _ => (s, EncScript.handle toks)
   | "encx" :: _ => (s, EncScript.handle toks)
+  | "msg" :: _ => (s, (MsgEmit.handle toks).getD "bad-op")
+  | "resp" :: _ => (s, (MsgEmit.handle toks).getD "bad-op")
+  | "rt" :: _ => (s, (MsgEmit.handle toks).getD "bad-op")
+  | "asm" :: _ => (s, "~")
   | _ => (s, "bad-op")
 
 end HickoryVerif.Drv.C02
